@@ -185,6 +185,16 @@ def run(chk):
         ("let inner1 = map {1: 1}; let inner2 = map {1: 1}; let m = map {0: inner1}; m[0] = inner2; insert(inner2, 2, 2); push(__o, len(m[0])); push(__o, len(inner1));",
          [("i", 2), ("i", 1)]),
     ]
+    # a key object that is changed between two lookups through it (the stored keys are other objects), and keys nested deeper
+    # than any sensible recursion bound used many times before ordinary keys are looked up again
+    EQV += [
+        ("let m = map {}; m[[10, 20]] = \"short\"; m[[10, 20, 30]] = \"long\"; let k = [10, 20]; push(__o, get(m, k)); push(k, 30); push(__o, get(m, k)); push(__o, contains(m, k)); "
+         "pop(k); pop(k); push(__o, get(m, k)); push(__o, contains(m, k)); push(k, 20); push(__o, m[k]);", ["short", "long", True, None, False, "short"]),
+        ("let m = map {[1]: 1, [2]: 2, [1, 2]: 12}; let k = [1]; push(__o, m[k]); k[0] = 2; push(__o, m[k]); k[0] = 1; push(k, 2); push(__o, get(m, k)); sort(k); push(__o, contains(m, k));", [1, 2, 12, True]),
+        ("let inner = [5]; let k = [inner, 6]; let m = map {[[5], 6]: \"a\", [[7], 6]: \"b\"}; push(__o, get(m, k)); inner[0] = 7; push(__o, get(m, k)); push(__o, contains(m, [[5], 6]));", ["a", "b", True]),
+        ("let m = map {[1, 2]: \"x\", [3]: \"y\", \"s\": \"z\"}; let d = [0]; let i = 0; while i < 100 { d = [d]; i = i + 1; } let j = 0; while j < 90 { insert(m, d, j); contains(m, d); get(m, [d]); j = j + 1; } "
+         "push(__o, get(m, [1, 2])); push(__o, contains(m, [3])); push(__o, m[[1, 2]]); push(__o, get(m, d)); push(__o, len(m));", ["x", True, "x", 89, 4]),
+    ]
     for k, (prog, exp) in enumerate(EQV):
         cases.append(Case("q%d" % k, "let __o = []; " + prog, {"globals": "__o", "steps": 100000}))
     res = core.run_cases(cases)
@@ -197,7 +207,7 @@ def run(chk):
         got = list(canon_dump(r["globals"]["__o"])[1]) if r.get("outcome") == "ok" and "globals" in r else None
 
         from .val import canon
-        exp = [canon(None if x[0] == "null" else x[1]) for x in exp]
+        exp = [canon((None if x[0] == "null" else x[1]) if isinstance(x, tuple) else x) for x in exp]
         if got is None or got != exp:
             chk.violation("lookup|equal-but-distinct-values|%d" % k, "%s: expected %s, observed %s (%s)" % (
                 prog, [show(x) for x in exp], [show(x) for x in got] if got is not None else None, r.get("rt") or r.get("outcome")), {"src": prog})
